@@ -1371,3 +1371,28 @@ Lemma builtin_direct_block :
   is_reserved outbound_direct = true /\ is_reserved outbound_block = true /\
   builtin_outbound outbound_direct = true /\ builtin_outbound outbound_block = true.
 Proof. vm_compute. repeat split; reflexivity. Qed.
+
+(* every attempt of one routeDial carries the same dial parameters, hence the same target *)
+Lemma every_attempt_same_target :
+  forall (is_ip : str -> bool) mode outbound dst domain l first_fails d,
+    In d (route_dial_domains domain first_fails) ->
+    d = domain /\ choose_dial_target is_ip mode outbound dst d l = choose_dial_target is_ip mode outbound dst domain l.
+Proof.
+  intros is_ip mode outbound dst domain l ff d H.
+  assert (E : d = domain).
+  { unfold route_dial_domains, retry_domain in H. destruct H as [H|H]; auto.
+    destruct ff; [|destruct H]. destruct H as [H|[]]. rewrite <- H. reflexivity. }
+  subst. auto.
+Qed.
+
+Open Scope string_scope.
+Lemma attempt_without_domain_refuted :
+  exists mode outbound dst domain l d,
+    In d (route_dial_domains_dropping domain true) /\
+    o_target (choose_dial_target nv_is_ip mode outbound dst d l) <>
+    o_target (choose_dial_target nv_is_ip mode outbound dst domain l).
+Proof.
+  exists ModeDomainPlus, 2%N, nv_dst, (bs "example.com"), {| l_dns := false; l_real_known := false; l_real_real := false |}, [].
+  split; [right; left; reflexivity|]. vm_compute. discriminate.
+Qed.
+Close Scope string_scope.
